@@ -100,6 +100,12 @@ fn bases(out_path: &str) {
     m.insert("表.cmp".to_string(), (0..33u8).collect());
     m.insert("empty".to_string(), vec![]);
     put("pack-3", "pack", mila::fe9_arc::serialize(&m).unwrap());
+    // a pack whose entry table crosses the 16-bit offset range (more than 4096 entries, table > 64 KiB)
+    let mut big: IndexMap<String, Vec<u8>> = IndexMap::new();
+    for i in 0..4100 {
+        big.insert(format!("f{:04}", i), if i % 1000 == 999 { vec![i as u8; 3] } else { vec![] });
+    }
+    put("pack-4100", "pack", mila::fe9_arc::serialize(&big).unwrap());
     // arc (padded and unpadded), built through the archive API
     for padded in [true, false] {
         let pad = if padded { 0x60 } else { 0 };
